@@ -17,9 +17,10 @@ CLAIMED = {
         text="Lean theorems about a names-level model of residue.py's atom bookkeeping and of the hydrogen-bond optimisation objects, for EVERY residue, EVERY moved set and EVERY outcome of every hydrogen-bond attempt in any number and order: "
         "a Flip object ends after complete with exactly the names the residue had before (no *FLIP copy left, nothing lost or doubled, and finalize never hits remove_atom's KeyError); an Alcoholic object ends with the original names plus the polar hydrogen once and no LP* "
         "(given 1-3 atoms bonded to the oxygen - shown necessary, and checked at every real finalize); a Water ends with its names plus H1 and H2 once each and no LP*; cleanup removes the doubled carboxylic proton exactly when both are present; "
+        "one residue through repair_heavy: every heavy atom of the reference present afterwards, every input atom kept or reported deleted, atoms the reference knows always kept, no duplicates; one residue through add_hydrogens: with every placement succeeding no reference hydrogen missing (except HG of a bridged cysteine), nothing removed, only reference hydrogens added; "
         "found and missing atoms of apply_force_field are together a permutation of all atoms (from C01). Tie: trace replay - every method call on the real Flip/Alcoholic/Water objects and cleanup is logged with the residue's name list before/after, return value, fixed flag and bond count, and replayed in the model. "
         "Oracle on real runs: final names of every fully parameterised residue (no duplicate, no LP*/...FLIP, exactly the atom set of its run-time reference or of the definition its final state is named after, one carboxylic proton); every input heavy atom of a recognised residue kept exactly once unless its deletion was reported; found U missing = all, PQR lines = found.",
-        note="partial: Carboxylic (doubles, O-swap through the temporary name FLIP), heavy-atom repair, add_hydrogens and patch application are covered by the final-state oracle on the runs made, not by theorems; no nucleic-acid structure offline (5'-phosphate removal not exercised)",
+        note="partial: Carboxylic (doubles, O-swap through the temporary name FLIP), patch application and the composition of the stages are covered by the final-state oracle on the runs made, not by theorems; no nucleic-acid structure offline (5'-phosphate removal not exercised)",
         ref="DESIGN.md §4 C03",
     ),
     "C04": dict(
@@ -66,9 +67,11 @@ CLAIMED = {
     ),
     "C12": dict(
         text="Lean theorems kernel-checked over the regenerated call skeleton of main.py and the inventory of every write-open in the package: the output PQR path is opened for writing in exactly one place (print_pqr); print_pqr is called once, "
-        "after every argument check, file lookup, parse, set-up and compute stage, and only the optional PDB/APBS writers follow it; non_trivial never sees the output path; the charge guard precedes naming and line generation; checks come first. "
+        "after every argument check, file lookup, parse, set-up and compute stage, and only the optional PDB/APBS writers follow it; non_trivial never sees the output path; the charge guard precedes naming and line generation; checks come first; "
+        "charge_guard_spec (over Q, model run in Float against the real noninteger_charge): a total passes the guard exactly when it is within the tolerance of some integer. "
         "Oracle: fault injection into EVERY stage of that generated skeleton on the real code x {ValueError, RuntimeError} x output path {absent, pre-existing with sentinel content and mtime}; eleven natural failure triggers; "
-        "success side: complete peptides with each residue type forced in turn x six force fields (PEOEPB terminal gaps and the non-raising is_repairable are known findings).",
+        "hydrogen-free peptides under --assign-only and CA traces (totals that cannot be integral) must fail and leave the path alone or write an integral total; "
+        "success side: side-chain-complete peptides with each residue type forced in turn x six force fields, and PARSE with --neutraln/--neutralc at each residue type (PEOEPB terminal gaps, PARSE neutral C-terminal PRO and the non-raising is_repairable are known findings).",
         note="the OS is not modelled (a crash inside write() leaves a partial file); success for ALL sequences is checked on the windows run, not proved by a kernel table",
         ref="DESIGN.md §4 C12",
     ),
@@ -89,10 +92,11 @@ CLAIMED = {
     "C02": dict(
         text="Lean theorems about a names-level model of assign_termini / set_termini (hidden-chain loop included) and the specification formalCharge: a cyclic chain gets no termini; only flags and patch lists change; "
         "in every peptide chain exactly the first residue gets one N-terminus patch and exactly the last one C-terminus patch with everything in between untouched; trailing waters/hetero groups are looked through; "
-        "with no hidden chain end set_termini is chain-wise (chain ids, numbering, order irrelevant); a neutral N-terminus shifts the formal charge by exactly -1; formal charges lie in [-2,2]. "
+        "with no hidden chain end set_termini is chain-wise (chain ids, numbering, order irrelevant); a neutral N-terminus shifts the formal charge by exactly -1; formal charges lie in [-2,2]; "
+        "charge_table (kernel, regenerated data): for each of the six force fields and every amino-acid state x chain position it parameterises completely, the exact integer sum of the state's charges is the formal charge its name stands for. "
         "Ties: the real set_termini on generated chain layouts (blank chains, internal OXT, trailing hetero residues, the cyclic test peptide, neutral flags) vs the model, flags and patch lists of every residue; "
         "end to end residue.charge of every fully parameterised residue vs formalCharge evaluated by the driver, total = sum, PQR charge column = total.",
-        note="the cyclic test enters the model as an oracle bit logged from the real call; that a force field's numbers add up to the formal charge of a cell is checked on real runs for the cells reached, not by a kernel-checked table; no nucleic-acid structure offline",
+        note="the cyclic test enters the model as an oracle bit logged from the real call; charge table: kernel-checked for amino-acid states over the regenerated topology and the regenerated final force-field maps (516 fully parameterised cells; N-terminal proline excluded - checked on runs; PARSE neutral C-terminal proline refuted: known finding under C12); that a residue's final atoms are those of the definition it is named after is checked on real runs (C03 oracle); no nucleic-acid structure offline",
         ref="DESIGN.md §4 C02",
     ),
     "C06": dict(
